@@ -232,6 +232,8 @@ class ContractDB:
         self.nullable = set() # "Type.Field" pointer/interface fields that may be nil in a well-formed AST
         self.wfexclude = {}   # interface short name -> set of implementer short names never produced by the parser
         self.wfalso = {}      # struct short name -> list of extra well-formedness conditions over `self`
+        self.closed = set()   # interface type names (pkg.Name) whose dynamic types are exactly the implementers known to the module
+        self.externpure = []  # package path prefixes whose functions/methods are deterministic and side-effect free (uninterpreted)
         self.pkg_safety = {}  # package path -> properties the panic-freedom obligations of its functions count for
 
     def load_dir(self, root, module):
@@ -290,6 +292,20 @@ class ContractDB:
                 last = sd
             elif word == 'nullable':
                 self.nullable.update(rest.split())
+                last = None
+            elif word == 'axiom':
+                m = HEAD_RE.match('requires ' + rest)
+                if not m:
+                    raise ParseError('%s:%d: axiom needs a [label]' % (path, ln))
+                c = Clause('axiom', m.group(2), [], m.group(4), path, ln)
+                c.pkg = pkg
+                self.axioms.append(c)
+                last = c
+            elif word == 'closed':
+                self.closed.update(rest.split())
+                last = None
+            elif word == 'externpure':
+                self.externpure.extend(rest.split())
                 last = None
             elif word == 'safetyprop':
                 self.pkg_safety.setdefault(pkg, set()).update(rest.replace(',', ' ').split())
